@@ -628,6 +628,8 @@ def cases_for(prop, tier, seed, pools, toks, ck):
             cases += gen.gen_histories(prop, lang, rnd, pools[lang], toks, per(12, 400), length=per(14, 24))
             if prop == "C10":
                 cases += gen.gen_family_cases("C10", lang, rnd, per(3, 60))
+            if prop == "C12":
+                cases += gen.gen_symbol_query_cases("C12", lang, rnd, pools[lang])
         # the same statement through the top-level API (lib.rs), with a stand-alone store in lock-step
         cases += gen.gen_registry_cases(rnd, per(20, 600), pools, toks, length=per(30, 50))
     elif prop == "C01":
